@@ -56,4 +56,49 @@ CLAIMS = {
         "note": COMMON_NOTE + "The client-side waiting is real (loopback); promptness is observed with a 1 s bound, not proved.",
         "technique": "Lean 4 proof (unfolding of the request life-cycle model) + differential correspondence with a withholding client",
     },
+    "C02": {
+        "text": "Theorem head_roundtrip: for every well-formed HTTP/1.0/1.1 head (any method token, any whitespace-free target, any number of headers incl. duplicates, empty "
+                "values, colons and inner whitespace), every choice of optional whitespace around values, every continuation and end of the stream, the parser returns exactly "
+                "that head and stops exactly after it — no bound on line or head length; method_table (nine literals -> nine variants, everything else NonStandard, "
+                "case-sensitive, about the table extracted from the source); delivered_is_parsed. Tied to the code by sending grammar-directed heads (lines > 1 KiB, heads > 64 KiB) "
+                "over loopback TCP and UNIX sockets and comparing the delivered request with the generator's abstract request and with the model. Partial: remote_addr is observed only.",
+        "design_ref": "6 (C02)",
+        "note": COMMON_NOTE + "The 1 KiB BufReader boundary is covered by the flat semantics (the parser is a function of the byte stream, C13) and exercised by long lines; peer address comes from the OS.",
+        "technique": "Lean 4 proof (parse-of-render round trip by induction over the header list) + differential correspondence over loopback/UNIX sockets",
+    },
+    "C03": {
+        "text": "Theorems limited_read_exact, buffered_read_exact, buffered_is_next_n, upgrade_read_exact, empty_read, chunked_read_exact (any chunking: sizes, hex case, leading zeros, "
+                "extensions), te_precedence, declared_length, no_framing_no_body: for every body, every buffer size >= 1 and every total the application asks for, the bytes obtained "
+                "are exactly the prefix of the designated body, end-of-stream comes exactly at its end, and no byte of the following message is returned or skipped. Tied to the code "
+                "by bodies of all boundary lengths x framings x read plans followed by pipelined requests, compared piecewise with the model and with the generator's designated body.",
+        "design_ref": "6 (C03)",
+        "note": COMMON_NOTE + "chunked_transfer::Decoder is re-modelled line by line (Body.read) and checked by correspondence; read segmentation is abstracted (C13).",
+        "technique": "Lean 4 proof (reader state machines, induction on reads with a decoder-position invariant) + differential correspondence",
+    },
+    "C09": {
+        "text": "Theorems next_head_offset_limited / _buffered / _empty / _chunked and chunked_read_then_drain: whatever part of the body the application read (none, any prefix, all, "
+                "with or without observing EOF) and however it finished (respond, drop, raw writer, upgrade), the connection's byte stream is left exactly at the first byte after the "
+                "body. Tied to the code with every consumption class x finish kind x framing followed by pipelined requests; delivered sequence and client-side responses compared.",
+        "design_ref": "6 (C09)",
+        "note": COMMON_NOTE + "Holds on the tree with the chunked-drain repair (fix: commit recorded in known_findings.json); the check reports the violation again if the drain disappears.",
+        "technique": "Lean 4 proof (drain-after-read invariant over the chunk decoder and EqualReader models) + differential correspondence",
+    },
+    "C10": {
+        "text": "Theorems request_line_needs_three_fields, unknown_version_rejected, version_table, header_without_colon_rejected, non_ascii_line, expect_classification, "
+                "bad_request_line_outcome, bad_header_outcome, non_ascii_outcome, unsupported_expect_outcome (not delivered; 400/417/plain close after everything produced so far; "
+                "connection closed, never waiting), version_too_high_outcome (505 flushed at once, body skipped, loop continues), too_high_versions, earlier_responses_first. "
+                "Tied to the code with every malformed class at every pipeline position 0..3, answered early and late, with and without bodies.",
+        "design_ref": "6 (C10)",
+        "note": COMMON_NOTE + "'promptly' is proved as 'the connection thread never waits' in the model and observed with a deadline on real sockets. Holds with the 505 and writer-drop repairs.",
+        "technique": "Lean 4 proof (error classification lemmas + one-step unfolding/induction over the connection loop) + differential correspondence",
+    },
+    "C16": {
+        "text": "Theorems ws_in_name_rejected, ws_before_colon_rejected, leading_ws_rejected, bad_content_length_rejected, strict_content_length_iff, non_digit_rejected, "
+                "rejected_line_fails_head, bad_content_length_outcome: every header line with whitespace before/in/after the name and every Content-Length that is not 1*DIGIT "
+                "representable in 64 bits (on any Content-Length header, with or without Transfer-Encoding) makes the head fail: 400, close, nothing after it interpreted. "
+                "Tied to the code with all classes at pipeline positions 0..2, each followed by a would-be smuggled request.",
+        "design_ref": "6 (C16)",
+        "note": COMMON_NOTE + "Holds with the two header-syntax repairs (fix: commits in known_findings.json).",
+        "technique": "Lean 4 proof (lemmas on trim/split/digit parsing, unfolding of the connection loop) + differential correspondence",
+    },
 }
